@@ -2,7 +2,10 @@ package main
 
 // C08 — hooks are triggered only by meaningful changes (event type and jqFilter).
 //
-// Implementation side: a real resourceInformer (verif_export_c08.go) on kube-client/fake. The
+// Implementation side: the binding is written as a hook configuration and loaded by the real
+// HookConfig.LoadAndValidate (executeHookOnEvent / watchEvent absent, [], subsets; jqFilter;
+// keepFullObjectsInMemory); the MonitorConfig the loader built goes into
+// a real resourceInformer (verif_export_c08.go) on kube-client/fake. The
 // initial objects are created through the fake client's dynamic tracker and loaded by the real
 // createSharedInformer/loadExistedObjects; every later change is handed to the real
 // OnAdd/OnUpdate/OnDelete → handleWatchEvent; the events the informer emits are collected from its
@@ -654,7 +657,7 @@ func c08Obj(ns, name string, replicas int64, a any, x int64) map[string]any {
 }
 
 func runC08(r *Run) {
-	r.Rule = "per case: one real resourceInformer on kube-client/fake with a jq program drawn from the fragment (paths incl. missing keys and paths through scalars, literals, object/array construction, `//`; results object/array/scalar/null/error; 12% with two or three expressions joined by `,` = several outputs, merged the legacy way) or no filter, one of the 8 subsets of {Added,Modified,Deleted} (or the WithEventTypes(nil) default), keepFullObjectsInMemory on/off; 0-3 objects loaded by the real loadExistedObjects, then a history of 3-14 changes over 1-3 objects handed to the real OnAdd/OnUpdate/OnDelete: informer-start replay of the listed objects, resync of the identical state, changes only outside the filter's paths, changes inside them, A->B->A, deletes (also with a final state that differs from the cached one), re-adds, Modified and Deleted for objects the informer does not know. Every distinct object state is also run through the real applyFilter and compared with the model's jq evaluator. A case is non-trivial when it delivers >= 3 changes and contains at least one re-delivery or outside-only change; distinct = distinct op-line sequences. `cluster` cases start the informer on the fake client and change the objects in the cluster instead."
+	r.Rule = "per case: one real resourceInformer on kube-client/fake with a jq program drawn from the fragment (paths incl. missing keys and paths through scalars, literals, object/array construction, `//`; results object/array/scalar/null/error; 12% with two or three expressions joined by `,` = several outputs, merged the legacy way) or no filter, the binding written as a hook configuration (configVersion v1, rendered as JSON or as block YAML) and loaded by the real HookConfig.LoadAndValidate — executeHookOnEvent absent / [] / any subset of {Added,Modified,Deleted} in any order, now and then with a repeated item, x the deprecated watchEvent absent / [] / any subset (45% executeHookOnEvent only, 10% neither key = the default, 15% watchEvent only, 30% both keys), jqFilter, keepFullObjectsInMemory false / true / left out — the MonitorConfig the loader built is what the informer gets; 0-3 objects loaded by the real loadExistedObjects, then a history of 3-14 changes over 1-3 objects handed to the real OnAdd/OnUpdate/OnDelete: informer-start replay of the listed objects, resync of the identical state, changes only outside the filter's paths, changes inside them, changes of the TYPE of a leaf inside them with the same JSON text (3 <-> '3', true <-> 'true', absent/null <-> 'null', an array or object <-> the string holding its text; 12% of the steps, half of them followed by the way back), A->B->A, deletes (also with a final state that differs from the cached one), re-adds, Modified and Deleted for objects the informer does not know. Every distinct object state is also run through the real applyFilter and compared with the model's jq evaluator. A case is non-trivial when it delivers >= 3 changes and contains at least one re-delivery or outside-only change; distinct = distinct op-line sequences. `cluster` cases start the informer on the fake client and change the objects in the cluster instead."
 
 	// ---- corpus: the counterexamples of the repaired defect (filter results that are not objects)
 	corpus := []struct {
